@@ -122,7 +122,10 @@ func ZZ_C20_Step() {
 		k := zzrt.Choice(15)
 		remain := zzrt.IntRange(0, 268435455)
 		p := zzPacketOfKind(k, remain)
-		b := uint64(packets.TotalBytes(p))
+		// bytes on the wire, from the specification: 1 byte of type and flags, the
+		// Remaining Length as a variable byte integer (1..4 bytes), the remaining bytes
+		vl := zzrt.IteInt(remain < 128, 1, zzrt.IteInt(remain < 16384, 2, zzrt.IteInt(remain < 2097152, 3, 4)))
+		b := uint64(1 + vl + remain)
 		for _, ps := range []*PacketStats{&gG.PacketStats, &gC[id].PacketStats} {
 			bytes, count := &ps.BytesReceived, &ps.ReceivedTotal
 			if op == 1 {
